@@ -169,8 +169,9 @@ PROPS["C04"] = {
 
 PROPS["C02"] = {
     "title": "Assemble and parse are exact inverses on grammar-conforming instructions",
-    "units": {"quick": ["assemble", "kani_assemble_str", "parser_core"], "thorough": ["assemble", "kani_assemble_str", "parser_core", "decoder"]},
-    "only_items": {"parser_core": [r"parse_literal", r"parse_operand", r"parse_\w+_arguments", r"parse_inst", r"parse_spec_constant_op"]},
+    "units": {"quick": ["assemble", "kani_assemble_str", "parser_core", "parser_protocol", "tracker"], "thorough": ["assemble", "kani_assemble_str", "parser_core", "parser_protocol", "tracker", "decoder"]},
+    "only_items": {"parser_core": [r"parse_literal", r"parse_operand", r"parse_\w+_arguments", r"parse_inst", r"parse_spec_constant_op"],
+                   "parser_protocol": [r"Parser::(parse|new)$"]},
     "engines": ["verus", "kani"],
     "level": "proof",
     "technique": "Verus contracts on the extracted Operand/Instruction/ModuleHeader/Block/Function assemble_into against an encoding spec generated from the payload types of dr::Operand; assemble_str by bounded Kani",
